@@ -72,14 +72,27 @@ def gen_cases(ctx, table, scale):
         cases.append({"kind": kind, "parts": parts, "chunks": ch if ch is not None else chunks(hint), "regs": REGS[regs],
                       "regs_name": regs})
 
-    for c in (ctx.replay or {}).get("cases", []):
-        cases.append(c)
+    if ctx.replay:
+        # --replay: exactly the recorded failing probes (their original specification)
+        for f in ctx.replay.get("failures", []):
+            c = (f.get("case") or {}).get("case")
+            if c and "parts" in c:
+                cases.append(c)
+        for b in ctx.replay.get("theorem_or_correspondence", []) + ctx.replay.get("broken", []):
+            c = (b.get("case") or {}).get("case")
+            if c and "parts" in c:
+                cases.append(c)
+        if cases:
+            return cases
     for _ in range(scale):
         # random streams at and around every threshold, against every kind of registry
         for n in (0, 1, 31, 32, 33, 63, 64, 65, 100, 141, 4095, 4096, 4097, 8191, 8192, 8193, 16384):
             mk("random", [{"gen": [rng.randrange(1, 1 << 30), n]}] if n else [], hint=n)
         for regs in regnames:
             mk("random", [{"gen": [rng.randrange(1, 1 << 30), rng.choice([40, 90, 700])]}], regs=regs)
+        # long probes to a phantom without registrations (the handler drains from the first byte)
+        for n in (8193, 12288, 16384):
+            mk("random", [{"gen": [rng.randrange(1, 1 << 30), n]}], regs="none", hint=n)
         # protocol look-alikes
         for h in LOOKALIKES:
             mk("lookalike", [{"hex": h}, {"gen": [rng.randrange(1, 1 << 30), rng.choice([0, 30, 300])]}])
@@ -88,6 +101,20 @@ def gen_cases(ctx, table, scale):
             for n in (63, 64, 200):
                 mk("static", [{"row": row["id"]}, {"gen": [rng.randrange(1, 1 << 30), n]}], hint=n + row["offset"],
                    regs=rng.choice(["one-prefix", "many", "none", "invalid"]))
+        # 64 bytes at a tag offset that no station key can reveal at all (an all-zero Elligator
+        # representative is a low-order point: TryReveal fails), followed by more data
+        for row in table:
+            mk("loworder", [{"row": row["id"]}, {"hex": "00" * 64}, {"gen": [rng.randrange(1, 1 << 30), 80]}],
+               regs=rng.choice(["one-prefix", "many", "one-min", "invalid"]),
+               ch=[[30, row["offset"] + 64], [900, 40], [rng.randrange(1500, 4400), -1]])
+        mk("loworder", [{"hex": "00" * 200}], regs="many", ch=[[30, 100], [1200, -1]])
+        for h in ("ff" * 96, "01" + "00" * 95, "ec" + "ff" * 30 + "7f" + "00" * 64):
+            mk("loworder", [{"hex": h}, {"gen": [rng.randrange(1, 1 << 30), 40]}], regs=rng.choice(["many", "one-prefix"]),
+               ch=[[20, 96], [1100, -1]])
+        # many small chunks, spread over the whole time before the earliest possible deadline
+        for regs in ("none", "one-obfs4", "many"):
+            mk("manychunks", [{"gen": [rng.randrange(1, 1 << 30), 450]}], regs=regs,
+               ch=[[100 * i + 5, 10] for i in range(44)] + [[4450, -1]])
         # genuine flights with one bit flipped
         mk("flip", [flight("min", flip=rng.randrange(0, 256))])
         mk("flip", [flight("min", flip=255), {"gen": [5, 40]}])
@@ -168,7 +195,7 @@ def judge(ctx, c, r, Ds):
     """the property's own statement on the observables of one probe (not for probes that carry a valid tag)"""
     kind, regs = c["kind"], c.get("regs_name", "?")
     key = "%s/%s" % (kind, regs)
-    brief = {"kind": kind, "regs": regs, "parts": r.get("parts"), "script": r.get("script"),
+    brief = {"kind": kind, "regs": regs, "case": c, "parts": r.get("parts"), "script": r.get("script"),
              "observed": {k: r.get(k) for k in ("set_deadline", "writes", "closes", "returned", "max_lag", "unread", "panic")}}
     brief["observed"]["reads"] = (r.get("reads") or [])[-6:]
     brief["observed"]["calls"] = (r.get("calls") or [])[-6:]
@@ -268,7 +295,7 @@ def run(ctx):
     table = res["table"]
     c04.table_obligation(ctx, table, res["obfs4"], props="C03.Props", inst="C03_no_tag_no_reaction reveal mark hs dumped")
     lap("table dump + obligation")
-    batches = 1 if ctx.tier == "quick" else 3
+    batches = 1 if ctx.tier == "quick" or ctx.replay else 3
     allc, allr = [], []
     for b in range(batches):
         cases = gen_cases(ctx, table, 1 if ctx.tier == "quick" else 2)
@@ -310,7 +337,7 @@ def run(ctx):
         ctx.sample({"kind": allc[i]["kind"], "regs": allc[i].get("regs_name"), "script": r.get("script"),
                     "observed": {k: r.get(k) for k in ("set_deadline", "writes", "closes", "returned", "max_lag", "unread")}})
     if not ctx.replay:
-        ctx.require_kinds(["random/ok", "lookalike/ok", "static/ok", "flip/ok", "short/ok", "unregistered/ok", "unvalidated/ok",
+        ctx.require_kinds(["random/ok", "lookalike/ok", "static/ok", "flip/ok", "short/ok", "unregistered/ok", "unvalidated/ok", "loworder/ok", "manychunks/ok",
                            "drain/ok", "late/ok", "validtag-wrongprefix/ok", "validtag-wrongtransport/ok", "validtag-obfs4-badmac/ok"] + ["regs:" + n for n in REGS])
     lap("oracle + emit")
     mm = c04.coq_mismatches_retry(ctx, "probe", header(table), terms, "chk'", max(20, len(terms) // 16 + 1), ["C03/Run.vo"])
